@@ -29,7 +29,7 @@ def _judge(run):
     return labels, ch.near_face > 0
 
 
-P = ScenarioProperty(PROP, {"families": ["linear", "linear", "sphere", "rastrigin", "step", "abssum", "twobasin", "constant", "infwall", "offset"], "wide_sampling": True, "allow_cache": True}, lambda sc: [C01Checker(sc)], _judge, quick=1600, thorough=40000, keep_on_crash=True)
+P = ScenarioProperty(PROP, {"families": ["linear", "linear", "sphere", "rastrigin", "step", "abssum", "twobasin", "constant", "infwall", "infwall", "offset"], "wide_sampling": True, "allow_cache": True}, lambda sc: [C01Checker(sc)], _judge, quick=1600, thorough=40000, keep_on_crash=True)
 
 
 def run_shard(tier, seed, shard, nshards, tally, scale=1.0):
